@@ -205,6 +205,42 @@ func runC18(c *Ctx, r *Report, tier string) {
 		}, nil)
 		r.Check(ok, "TOKENS", cpn, "command words are recognised only with an empty positional queue", c.ipos(in), "fillParseState REQ(len(s.positional) == 0): the parser binds the word to a pending positional first", "a word naming a subcommand switches the context although a positional argument is still pending (the parser would bind it as that argument)")
 	}
+	// a short option with an attached argument (`-ovalue`) takes nothing from the following words: as in the parser
+	// (splitShortConcatArg: width of the first rune vs len), the test compares the cluster's byte length with the
+	// first character's own byte length, for the first character, when it takes an argument
+	{
+		nW := 0
+		for _, b := range c.blocks(cp) {
+			iff, ok := b.Instrs[len(b.Instrs)-1].(*ssa.If)
+			if !ok {
+				continue
+			}
+			t := c.cond(iff.Cond).Term
+			if !strings.HasPrefix(t, "eq(len(") || !strings.Contains(t, "runeat(") {
+				continue
+			}
+			// eq(len(C), len(conv[string](runeat(C)))) / eq(len(C), RuneLen(runeat(C))) / eq(len(C), runewidth(C))
+			inner := t[len("eq(len("):]
+			cl := inner
+			if i := strings.Index(inner, "), len(conv[string](runeat("); i >= 0 {
+				cl = inner[:i]
+			} else if i := strings.Index(inner, "), call:unicode/utf8.RuneLen(runeat("); i >= 0 {
+				cl = inner[:i]
+			} else {
+				continue
+			}
+			if !strings.HasSuffix(strings.TrimSuffix(t, ")"), "runeat("+cl+"))") && !strings.HasSuffix(t, "runeat("+cl+"))))") && !strings.HasSuffix(t, "runeat("+cl+")))") {
+				continue
+			}
+			nW++
+			_, first := c.Requires(cp, isInstr(iff), litIs("nonzero(runepos("+cl+"))", false), nil)
+			_, takes := c.Requires(cp, isInstr(iff), func(l Lit) bool {
+				return l.Pos && strings.HasPrefix(l.Term, "call:(*Option).canArgument(lookup(lookup.shortNames(")
+			}, nil)
+			r.Check(first && takes, "TOKENS", cpn, "attached-argument test applies to the first character of a cluster that takes an argument", c.ipos(iff), "REQ(byte offset 0) ∧ REQ(canArgument())", fmt.Sprintf("first necessary=%v canArgument necessary=%v", first, takes))
+		}
+		r.Check(nW >= 1, "TOKENS", cpn, "a cluster with an attached argument does not consume the next word", c.pos(cp.Pos()), "the cluster's byte length is compared with the byte length of its first character", "no such comparison: a multi-byte short option followed by its value as a separate word is taken for `-oVALUE`, and the value word is then read as a command or positional")
+	}
 	// words after a terminator: all of them but the last (the word being completed) have been typed
 	for _, in := range c.instrs(cp, c.isCallTo("(*completion).skipPositional")) {
 		t := c.term(in.(*ssa.Call).Call.Args[2])
